@@ -199,6 +199,13 @@ def run(rep, tier, seed):
     n = 1 if tier == "quick" else 30
     for _ in range(5000 * n):
         op, spec, label = inject(rng)
+        if op == "parse_part" and isinstance(spec, dict) and rng.random() < 0.5:
+            # the malformed part spec inside a data path that is a condition ARGUMENT (the argument itself, an item of
+            # a list argument, a bound of a range): the condition spec is malformed all the same
+            pa = {rng.choice(["path", "path", "path.first", "path.length"]): rng.choice([[spec], ["a", spec], [spec, 0]])}
+            op, label = "parse_cond", label + " (in a data-path argument)"
+            spec = rng.choice([{"value.equal_to": pa}, {"value.in": [1, pa]}, {"value.in_range": {"lower": pa, "upper": 9}},
+                               {"and": [{"value.truthy": None}, {"value.not_equal_to": pa}]}])
         try:
             lit = to_lit(spec)
             e = gd.parse_event(len(events) + 1, op, spec)
